@@ -1,8 +1,8 @@
 (** A de-duplicating index table hands back, for every requested item, an index whose record is the requested record --
     for every sequence of requests and every initial table -- as soon as the key determines the record.  A key that
     reads only part of the record is refuted by a computed witness. *)
-From Coq Require Import List String NArith Bool PeanoNat Lia.
-From SV Require Import Fmt.BspDedup.
+From Coq Require Import List String NArith ZArith Bool PeanoNat Lia.
+From SV Require Import Bin.LE Bin.Struct Bin.StructProofs Fmt.BspDedup.
 Import ListNotations.
 Open Scope string_scope.
 Open Scope list_scope.
@@ -221,3 +221,30 @@ Theorem dedup_key_by_name_refuted :
   key_determines [] td_fields KIdentity = true /\
   key_determines [] td_fields (KFields [("width", ""); ("mat", "")]) = true.
 Proof. vm_compute. repeat split; try reflexivity. discriminate. Qed.
+
+(** The reference as it travels through the file: the index handed out by the table is packed into an integer field of the
+    referring record ([texinfo.texdata], [face.planenum], ...), unpacked by the reader and used to index the table that was
+    written.  If the index fits the field (otherwise struct raises: [pack_rejects]) the referring record gets back the record
+    of the object it referred to. *)
+Theorem reference_roundtrip : forall admitted fields k tr l xs sg w,
+  key_determines admitted fields k = true ->
+  (forall v, tr "" v = v) ->
+  (forall o, In o (l ++ xs) -> map fst (snd o) = fields) ->
+  (forall o o', In o (l ++ xs) -> In o' (l ++ xs) -> fst o = fst o' -> o = o') ->
+  (forall t, In t admitted -> forall o o' f v v', In o (l ++ xs) -> In o' (l ++ xs) ->
+     assoc_f f (snd o) = Some v -> assoc_f f (snd o') = Some v' -> tr t v = tr t v' -> v = v') ->
+  (0 < w)%nat ->
+  forall s' is, dd_run (key_sem tr k) keyval_eqb (dd_init (key_sem tr k) l) xs = (s', is) ->
+  Forall (fun i => in_range sg w (Z.of_nat i) = true) is ->
+  Forall2 (fun o i => exists bs, pack [KInt sg w] [VInt (Z.of_nat i)] = Some bs /\
+                                 exists z, unpack [KInt sg w] bs = Some [VInt z] /\ read_back (fst s') (Z.to_nat z) = Some (snd o)) xs is.
+Proof.
+  intros admitted fields k tr l xs sg w Hk Htr Hf Hid Hadm Hw s' is H Hfit.
+  destruct (dedup_key_roundtrip admitted fields k tr l xs Hk Htr Hf Hid Hadm s' is H) as [HF _].
+  clear - HF Hfit Hw. induction HF as [|o i xs' is' Hrb _ IH]; [constructor|].
+  inversion Hfit as [|? ? Hi Hfit']; subst. constructor; [|apply IH; exact Hfit'].
+  destruct (unpack_pack [KInt sg w] [VInt (Z.of_nat i)]) as (bs & Hp & Hu).
+  - unfold wf_fmt, wf_kind. cbn [forallb]. apply Nat.ltb_lt in Hw. rewrite Hw. reflexivity.
+  - cbn [fits fits1]. rewrite Hi. reflexivity.
+  - exists bs. split; [exact Hp|]. exists (Z.of_nat i). split; [exact Hu|]. rewrite Nat2Z.id. exact Hrb.
+Qed.
